@@ -369,6 +369,25 @@ class Check:
             json.dump(ev, fh, indent=1, default=str)
 
 
+def generic_replay(mod, path):
+    """Replay for checks whose cases are generated from the seed: re-run the correspondence half of the check with the
+    recorded seed and tier and look for a violation with the recorded signature.  Prints the record and what the re-run found;
+    exit code 1 when the violation shows again, 0 when it does not."""
+    rep = json.load(open(path))
+    print(json.dumps({k: rep[k] for k in rep if k not in ("got", "expected")}, default=str)[:2500])
+    if rep.get("signature") in (None, "tie-broken"):
+        return 0
+    os.environ["VERIF_SEED"] = str(rep.get("seed", 0))
+    chk = Check(rep["property"], rep.get("tier", "quick"))
+    if not import_impl(chk):
+        return 2
+    mod.run_cases(chk, rep.get("tier", "quick"))
+    same = [v for v in chk.violations if v[0] == rep["signature"]]
+    print(json.dumps(dict(rerun_seed=seed(), rerun_tier=rep.get("tier", "quick"), violations_total=len(chk.violations),
+                          same_signature=len(same), example=(same[0][-1] if same else None)), default=str)[:2500])
+    return 1 if same else 0
+
+
 def import_impl(chk):
     """import the implementation; failure = the implementation cannot be driven"""
     try:
